@@ -346,10 +346,6 @@ func (x *mctx) nativeMutants() []Mut {
 			if k.Code == o.Type {
 				continue
 			}
-			// (a 64-byte signature under the OLVM type is the known crash "OLVM:sig-length")
-			if k.Code == olvmCode && x.excl != nil && x.excl("OLVM:sig-length") {
-				continue
-			}
 			cand = append(cand, k.Code)
 		}
 		m.Type = cand[c.Intn(len(cand), "kind")]
@@ -492,9 +488,7 @@ func (x *mctx) nativeMutants() []Mut {
 			if d, ok := setMember(m.Data, x.kind.Signers[i], json.RawMessage(`""`)); ok {
 				m.Data = d
 				m.Sigs[i].KeyType, m.Sigs[i].Key = "btcecsecp", someSecpKey(x.u)
-				if !(x.excl != nil && x.excl("C04:empty-signer-btcec")) {
-					add("empty-signer-btcecsecp"+sfx, m)
-				}
+				add("empty-signer-btcecsecp"+sfx, m)
 			}
 		}
 	}
@@ -547,10 +541,6 @@ func (x *mctx) olvmMutants() []Mut {
 	var out []Mut
 	add := func(op string, m *mTx) {
 		if pl, err := parseOLVM(m.Data); err == nil && x.excl != nil {
-			// known crash "OLVM:nil-chainid": a payload that parses but has no chain id
-			if pl.ChainID == nil && x.excl("OLVM:nil-chainid") {
-				return
-			}
 			// known finding "OLVM:unsigned-payload-member", reached through another operator (e.g. a
 			// bit flip inside the payload's type member, or a memo that still parses to the nonce)
 			unsignedMember := pl.TxType != 0 || !emptyAccessList(pl.AccessList)
@@ -591,6 +581,22 @@ func (x *mctx) olvmMutants() []Mut {
 		}
 		m.Data = joinObject(fs)
 		add("data-field-"+member, m)
+	}
+	{
+		// the chain id member removed / null
+		fs, _ := splitObject(o.Data)
+		var kept []jfield
+		for _, f := range fs {
+			if f.Key != "chainID" {
+				kept = append(kept, f)
+			}
+		}
+		m := o.clone()
+		m.Data = joinObject(kept)
+		add("data-field-chainID-removed", m)
+		m2 := o.clone()
+		m2.Data, _ = setMember(o.Data, "chainID", json.RawMessage("null"))
+		add("data-field-chainID-null", m2)
 	}
 	if !(x.excl != nil && x.excl("OLVM:unsigned-payload-member")) {
 		{
@@ -671,26 +677,24 @@ func (x *mctx) olvmMutants() []Mut {
 		m.Sigs[0].Sig = flipByte(m.Sigs[0].Sig, c, "sig")
 		add("sig-flip#0", m)
 	}
-	if !(x.excl != nil && x.excl("OLVM:sig-length")) {
-		{
-			m := o.clone()
-			s := m.Sigs[0].Sig
-			switch c.Intn(3, "trunc") {
-			case 0:
-				s = s[:len(s)-1]
-			case 1:
-				s = s[:32]
-			default:
-				s = []byte{}
-			}
-			m.Sigs[0].Sig = s
-			add("sig-truncate#0", m)
+	{
+		m := o.clone()
+		s := m.Sigs[0].Sig
+		switch c.Intn(3, "trunc") {
+		case 0:
+			s = s[:len(s)-1]
+		case 1:
+			s = s[:32]
+		default:
+			s = []byte{}
 		}
-		{
-			m := o.clone()
-			m.Sigs[0].Sig = append(m.Sigs[0].Sig, byte(c.Intn(256, "ext")))
-			add("sig-extend#0", m)
-		}
+		m.Sigs[0].Sig = s
+		add("sig-truncate#0", m)
+	}
+	{
+		m := o.clone()
+		m.Sigs[0].Sig = append(m.Sigs[0].Sig, byte(c.Intn(256, "ext")))
+		add("sig-extend#0", m)
 	}
 	{
 		m := o.clone()
